@@ -357,6 +357,21 @@ class Facts:
                 raise ValueError(f"default_rng argument not recognised: {ast.unparse(c)}")
         raise ValueError(f"origin of generator not recognised: {ast.unparse(e)}")
 
+    def _is_derived_rng_call(self, x: ast.Call) -> bool:
+        """`self.rng.<method>(…)` where the class field `rng` of this file is a Generator derived from a numpy draw"""
+        if not (isinstance(x.func, ast.Attribute) and _dotted(x.func.value) and _dotted(x.func.value).split(".")[-1] == "rng"):
+            return False
+        if isinstance(x.func.value, ast.Name):
+            return False
+        origin = None
+        for m in ast.walk(self.fi.tree):
+            if isinstance(m, ast.AnnAssign) and isinstance(m.target, ast.Name) and m.target.id == "rng" and m.value is not None:
+                origin = m.value
+        try:
+            return self._rng_family(origin) == "derivedNp"
+        except ValueError:
+            return False
+
     def draw(self, n: ast.Call, q: str) -> str:
         at, gd = _lb(self.at_call(n)), _lb(self.guarded_generate(n))
         arg = _lstr(", ".join(ast.unparse(a) for a in n.args) + "".join(f", {k.arg}={ast.unparse(k.value)}" for k in n.keywords))
@@ -376,7 +391,8 @@ class Facts:
                 for m in ast.walk(fn):
                     if (isinstance(m, ast.Call) and isinstance(m.func, ast.Attribute) and m.func.attr == "seed" and isinstance(m.func.value, ast.Name)
                             and m.func.value.id == base.id and m.lineno < n.lineno and len(m.args) == 1
-                            and any(isinstance(x, ast.Call) and (_resolve(self.fi, x.func) or "").startswith("numpy.random.") for x in ast.walk(m.args[0]))):
+                            and any(isinstance(x, ast.Call) and ((_resolve(self.fi, x.func) or "").startswith("numpy.random.") or self._is_derived_rng_call(x))
+                                    for x in ast.walk(m.args[0]))):
                         return f".draw .derivedNp {at} {gd}"
             return f".draw .space {at} {gd}"
         if q.startswith("random."):
